@@ -4,7 +4,7 @@
 // provider, gun, schedule and phout / jsonlines aggregator, built by
 // config.DecodeAndValidate) with 2..16 instances, run by the REAL engine against an
 // in-process target. The case is executed in a CHILD process (this test binary
-// re-executed with -test.run ^TestChild$, built with -race, GORACE=halt_on_error=1):
+// re-executed with -test.run ^TestChild$, built with -race; a race report makes it exit with code 66):
 //
 //	(a) no race report, no runtime fatal error, no unexpected exit of the child;
 //	(b) probes around the real gun factory: one gun object per instance, bound once,
@@ -292,7 +292,7 @@ func parseCrash(out string) *raceInfo {
 		if m := frameRe.FindStringSubmatch(ln); m != nil && kind == "data race" {
 			fn = m[1]
 		} else if kind != "data race" && strings.Contains(ln, "(") && !strings.HasPrefix(ln, "\t") && !strings.HasPrefix(ln, " ") && !strings.HasPrefix(ln, "goroutine ") {
-			fn = ln[:strings.Index(ln, "(")]
+			fn = ln[:strings.LastIndex(ln, "(")]
 		}
 		if fn == "" {
 			if strings.TrimSpace(ln) == "" {
@@ -386,7 +386,7 @@ func runChild(c Case, rounds int) outcome {
 		env = append(env, e)
 	}
 	env = append(env, envChildCase+"="+casePath, envChildResult+"="+resPath,
-		fmt.Sprintf("GORACE=halt_on_error=1 atexit_sleep_ms=0 exitcode=%d", raceExitCode))
+		fmt.Sprintf("GORACE=halt_on_error=0 atexit_sleep_ms=0 exitcode=%d", raceExitCode))
 	cmd.Env = env
 	cmd.Dir = dir
 	var buf bytes.Buffer
@@ -406,7 +406,12 @@ func runChild(c Case, rounds int) outcome {
 	if ri := parseCrash(out); ri != nil {
 		// the message must not depend on addresses / goroutine ids: rapid only shrinks a failure it can reproduce verbatim
 		msg := fmt.Sprintf("%s in the child process running this pool; top pandora frames of the conflicting stacks: %s", ri.Kind, strings.Join(ri.topFrames(), " / "))
-		return outcome{err: errors.New(msg), detail: ri.Text, finding: classify(msg, ri, res), res: res, race: ri}
+		detail := ri.Text
+		if res != nil && len(res.Violations) > 0 {
+			// the race detector does not stop the run: what the probes saw in the same run is evidence too
+			detail = "probes in the same run:\n" + strings.Join(res.Violations, "\n") + "\n\n" + detail
+		}
+		return outcome{err: errors.New(msg), detail: detail, finding: classify(msg, ri, res), res: res, race: ri}
 	}
 	if runErr != nil || res == nil {
 		return outcome{err: fmt.Errorf("child process ended unexpectedly (%v) without a result", runErr), detail: tail(out, 4000), res: res}
